@@ -79,6 +79,15 @@ def gen_cases(tier, seed):
                                             continue
                                         cases.append(dict(kind="cg", n=n, spectrum=sp_name, U=U, b=bname, x0=x0, P=P,
                                                           asfn=asfn, max_iter=mi, tol=tol))
+    # the caller's x as a non-contiguous view (column of a 2-D buffer / every other element): "the solution is written
+    # into the array the caller passed" must hold for any array layout
+    for n in (2, 3, 5):
+        for U in ("householder", "dft"):
+            for P in ("none", "jacobi"):
+                for asfn in (False, True):
+                    for x0 in ("zero", "ones"):
+                        cases.append(dict(kind="cg", n=n, spectrum="three", U=U, b="complex", x0=x0, P=P, asfn=asfn,
+                                          max_iter="n", tol=0, xlayout="strided"))
     for kind in ("indefinite", "negdef", "singular"):
         for n in (1, 2, 3, 4):
             for U in ("I", "householder", "dft"):
@@ -135,20 +144,32 @@ def run_case(case, seed):
     viol = []
     n = case["n"]
     A, b, x0, P = instance(case)
-    when = "P=%s, max_iter=%s, A as %s" % (case["P"], case["max_iter"], "function" if case["asfn"] else "Linop")
+    when = "P=%s, max_iter=%s, A as %s%s" % (case["P"], case["max_iter"], "function" if case["asfn"] else "Linop",
+                                             ", non-contiguous x" if case.get("xlayout") else "")
 
     def V(oracle, detail):
         viol.append(dict(oracle=oracle, key=dict(site="alg.ConjugateGradient", when=when), detail=detail + " | " + str(case)))
 
     max_iter = {"1": 1, "2": 2, "n": n, "n+2": n + 2}[case["max_iter"]]
+    strided = case.get("xlayout") == "strided"
     if case["asfn"]:
         Aop = lambda x: A @ x  # noqa
-        xc = x0.copy()
+        if strided:
+            buf = np.zeros(2 * n, complex)
+            xc = buf[::2]
+            xc[:] = x0
+        else:
+            xc = x0.copy()
         bb = b.copy()
         Pop = None if P is None else (lambda r: P @ r)
     else:
         Aop = sp.linop.MatMul([n, 1], A)
-        xc = x0.copy().reshape(n, 1)
+        if strided:
+            buf = np.zeros((n, 3), complex)
+            xc = buf[:, 1:2]
+            xc[:, 0] = x0
+        else:
+            xc = x0.copy().reshape(n, 1)
         bb = b.copy().reshape(n, 1)
         Pop = None if P is None else sp.linop.MatMul([n, 1], P)
     b0 = bb.copy()
